@@ -372,6 +372,17 @@ func c06Oracle(res *Result, w *C06W, h *H1, reqs []*c06Req, exitStep map[string]
 				invoked[p.Name] = true
 			}
 		}
+		// (a plugin that stopped itself while the request was under way may enter its handler late: the
+		// request had reached its stub in index order, but the handler goroutine of the dying session is
+		// scheduled whenever - only the plugins that stayed are compared)
+		stay := order[:0:0]
+		for _, name := range order {
+			if es, exited := exitStep[name]; exited && rq.Ret >= es {
+				continue
+			}
+			stay = append(stay, name)
+		}
+		order = stay
 		for i := 1; i < len(order); i++ {
 			if pw[order[i-1]].Idx > pw[order[i]].Idx {
 				res.Violate("C06.index-order", "request %s (%s): invocation order %v is not by index (%s-%s before %s-%s)", rq.ID, rq.Event, order,
